@@ -48,11 +48,40 @@ def check(tier, seed):
         if starved and not ck.violations:
             ck.violation({"kind": "sustained", "history": starved[0], "verdict": "source 0 never received the acknowledgement of its final high watermark 50 while source 1 kept the target's queue at least half full"},
                          "C03: source 0 finished at watermark 50 and kept repeating it for 20 s, the target acknowledged everything it was sent, yet source 0 was never told 50")
+    # many sources, one late target (monitor only: the order in which the pending watermarks are replayed is a map order): more
+    # source shards than the target's hand-off queue holds have announced their watermark before the target connects; the
+    # target acknowledges everything it is sent; every source must be told its watermark
+    many = [["I %d 1" % n, "SA 10", "C 0", "AA 0", "SA 10", "E", "SA 10", "E", "E"] for n in ((120,) if tier == "quick" else (101, 120, 160))]
+    merr, mimpl = R.run_impl(many, "c03m", timeout=600)
+    if merr:
+        ck.obligation("many-sources run", False, merr[:1500])
+        if not ck.violations:
+            ck.violation({"kind": "harness", "log": merr, "broken": "C03 many-sources harness"}, "harness failed: " + merr[:300], no_input=True)
+    else:
+        mbad = []
+        for h, ev in zip(many, mimpl):
+            n = int(h[0].split()[1])
+            told = set(int(l.split()[1]) for e, lines in ev for l in lines if l.startswith("K ") and l.split()[2] == "10")
+            if len(told) != n:
+                mbad.append((h, "%d of %d sources were never told their final watermark 10" % (n - len(told), n)))
+        ck.obligation("more source shards than the target's hand-off queue holds (120) announce their watermark before the only target connects; the target acknowledges everything: "
+                      "every source is told its watermark", not mbad, "; ".join(x[1] for x in mbad))
+        if mbad and not ck.violations:
+            ck.violation({"kind": "many", "history": mbad[0][0], "verdict": mbad[0][1]}, "C03: " + mbad[0][1])
     return ck.finish(rule="histories with slow (stalled, queue-filling) targets, idle targets and late targets, each ending with completion rounds; monitor: acks per source never decrease, never exceed "
                           "the last exclusive high watermark received, and the last ack equals the final high watermark; non-trivial = a stalled target or >= 2 targets")
 
 
 def replay(data):
+    if data.get("kind") == "many":
+        err, impl = R.run_impl([data["history"]], "c03mr", timeout=600)
+        if err:
+            print(err[-800:])
+            return 1
+        n = int(data["history"][0].split()[1])
+        told = set(int(l.split()[1]) for e, lines in impl[0] for l in lines if l.startswith("K ") and l.split()[2] == "10")
+        print("%d of %d sources told their watermark" % (len(told), n))
+        return 0 if len(told) == n else 1
     if data.get("kind") == "sustained":
         err, impl = R.run_impl([data["history"]], "c03r")
         if err:
